@@ -201,6 +201,9 @@ type classEval struct {
 	// isStream: additional stream objects (locals of the stream type); optional
 	isStream func(obj types.Object) bool
 	noRecv   bool // the method receiver is not a stream
+	// forkUnknown: an if-condition that does not test the symbol is followed both ways (paths then
+	// overlap: the classes are a cover, not a partition)
+	forkUnknown bool
 	err   string
 	out   []cePath
 	depth int
@@ -363,6 +366,13 @@ func (c *classEval) cond(st *ceState, e ast.Expr, want bool) (ivSet, bool) {
 		return nil, true
 	}
 	switch v := e.(type) {
+	case *ast.Ident:
+		// a boolean local holding a test of the symbol (minus := num < 0)
+		if def, ok := st.env[c.info.ObjectOf(v)]; ok && def != nil {
+			if _, again := ast.Unparen(def).(*ast.Ident); !again {
+				return c.cond(st, def, want)
+			}
+		}
 	case *ast.UnaryExpr:
 		if v.Op == token.NOT {
 			return c.cond(st, v.X, !want)
@@ -727,6 +737,23 @@ func (c *classEval) run(list []ast.Stmt, st ceState, k func(ceState), onRet ceRe
 		}
 		cont(st)
 	case *ast.AssignStmt:
+		if c.forkUnknown && len(v.Rhs) == 1 && len(v.Lhs) > 1 && (v.Tok == token.DEFINE || v.Tok == token.ASSIGN) {
+			// i, err := f(x): opaque results; the statement is kept for whoever reads the path
+			if _, isCall := ast.Unparen(v.Rhs[0]).(*ast.CallExpr); isCall {
+				st = st.fork()
+				c.reads(&st, v.Rhs[0])
+				for _, l := range v.Lhs {
+					if id, ok := l.(*ast.Ident); ok {
+						delete(st.env, c.info.ObjectOf(id))
+					}
+				}
+				if !st.inl {
+					st.stmts = append(st.stmts, v)
+				}
+				cont(st)
+				return
+			}
+		}
 		if len(v.Lhs) != len(v.Rhs) || (v.Tok != token.DEFINE && v.Tok != token.ASSIGN) {
 			c.fail(v, "assignment form")
 			return
@@ -877,6 +904,11 @@ func (c *classEval) runIf(v *ast.IfStmt, st ceState, cont func(ceState), onRet c
 	c.reads(&st, v.Cond)
 	t, ok1 := c.cond(&st, v.Cond, true)
 	f, ok2 := c.cond(&st, v.Cond, false)
+	if (!ok1 || !ok2) && c.forkUnknown {
+		// a test of something else than the symbol: both ways, the class unchanged
+		t, f = ivSet{c.dom}, ivSet{c.dom}
+		ok1, ok2 = true, true
+	}
 	if !ok1 || !ok2 {
 		c.fail(v.Cond, "condition %s is not a comparison of the class symbol with constants", types.ExprString(v.Cond))
 		return
